@@ -7,13 +7,13 @@ Open Scope Z_scope.
 Lemma gen_v4_contains_ok self val : wf 32 self -> wf 32 val ->
   gen_v4_contains self val = Ok (contains_ref 32 self val).
 Proof.
-  intros Hs Hv. unfold gen_v4_contains, gen_v4_as_decimal_broadcast, gen_v4_numhosts, contains_ref.
+  intros Hs Hv. repeat autounfold with genip. unfold contains_ref.
   abstract_obj 32 self Hs. abstract_obj 32 val Hv. finish.
 Qed.
 
 Lemma gen_v6_contains_ok self val : wf 128 self -> wf 128 val ->
   gen_v6_contains self val = Ok (contains_ref 128 self val).
 Proof.
-  intros Hs Hv. unfold gen_v6_contains, gen_v6_as_decimal_network_maxint, gen_v6_numhosts, contains_ref.
+  intros Hs Hv. repeat autounfold with genip. unfold contains_ref.
   abstract_obj 128 self Hs. abstract_obj 128 val Hv. finish.
 Qed.
